@@ -1101,10 +1101,10 @@ func (f *FnEnc) builtinAppend(c *ssa.CallCommon, hint string) Val {
 		nv := e.freshConst(cp.Name+"'app", cp.Sort)
 		e.compTypingFact(cp, nv, f.st.Alloc)
 		// new cells: prefix copied from s, suffix copied from t, everything else unchanged
-		e.fact(Term{fmt.Sprintf("(forall ((i Int)) (! (=> (and (<= 0 i) (< i %s)) (= (select %s (elemref %s (+ %s i))) (select %s (elemref %s (+ %s i))))) :pattern ((select %s (elemref %s (+ %s i))))))",
-			s.Len.S, nv.S, r.Base.S, r.Off.S, old.S, s.Base.S, s.Off.S, nv.S, r.Base.S, r.Off.S), SBool})
-		e.fact(Term{fmt.Sprintf("(forall ((i Int)) (! (=> (and (<= 0 i) (< i %s)) (= (select %s (elemref %s (+ %s (+ %s i)))) (select %s (elemref %s (+ %s i))))) :pattern ((select %s (elemref %s (+ %s (+ %s i)))))))",
-			tl.S, nv.S, r.Base.S, r.Off.S, s.Len.S, old.S, t.Base.S, t.Off.S, nv.S, r.Base.S, r.Off.S, s.Len.S), SBool})
+		e.fact(Term{fmt.Sprintf("(forall ((i Int)) (! (=> (and (<= 0 i) (< i %s)) (= (select %s (elemref %s (idxadd %s i))) (select %s (elemref %s (idxadd %s i))))) :pattern ((elemref %s (idxadd %s i)))))",
+			s.Len.S, nv.S, r.Base.S, r.Off.S, old.S, s.Base.S, s.Off.S, r.Base.S, r.Off.S), SBool})
+		e.fact(Term{fmt.Sprintf("(forall ((j Int)) (! (=> (and (<= %s j) (< j (+ %s %s))) (= (select %s (elemref %s (idxadd %s j))) (select %s (elemref %s (idxadd %s (- j %s)))))) :pattern ((elemref %s (idxadd %s j)))))",
+			s.Len.S, s.Len.S, tl.S, nv.S, r.Base.S, r.Off.S, old.S, t.Base.S, t.Off.S, s.Len.S, r.Base.S, r.Off.S), SBool})
 		e.fact(Term{fmt.Sprintf("(forall ((p Int)) (! (=> (not (and (= (elembase p) %s) (<= (+ %s %s) (elemidx p)) (< (elemidx p) (+ %s %s)))) (= (select %s p) (select %s p))) :pattern ((select %s p))))",
 			r.Base.S, r.Off.S, ite0(freshC, s.Len).S, r.Off.S, r.Len.S, nv.S, old.S, nv.S), SBool})
 		f.st.H[cp.Name] = nv
@@ -1143,8 +1143,8 @@ func (f *FnEnc) builtinCopy(c *ssa.CallCommon, hint string) Val {
 		old := e.lookup(f.st, cp)
 		nv := e.freshConst(cp.Name+"'cpy", cp.Sort)
 		e.compTypingFact(cp, nv, f.st.Alloc)
-		e.fact(Term{fmt.Sprintf("(forall ((i Int)) (! (=> (and (<= 0 i) (< i %s)) (= (select %s (elemref %s (+ %s i))) (select %s (elemref %s (+ %s i))))) :pattern ((select %s (elemref %s (+ %s i))))))",
-			n.S, nv.S, dst.Base.S, dst.Off.S, old.S, src.Base.S, src.Off.S, nv.S, dst.Base.S, dst.Off.S), SBool})
+		e.fact(Term{fmt.Sprintf("(forall ((i Int)) (! (=> (and (<= 0 i) (< i %s)) (= (select %s (elemref %s (idxadd %s i))) (select %s (elemref %s (idxadd %s i))))) :pattern ((elemref %s (idxadd %s i)))))",
+			n.S, nv.S, dst.Base.S, dst.Off.S, old.S, src.Base.S, src.Off.S, dst.Base.S, dst.Off.S), SBool})
 		e.fact(Term{fmt.Sprintf("(forall ((p Int)) (! (=> (not (and (= (elembase p) %s) (<= %s (elemidx p)) (< (elemidx p) (+ %s %s)))) (= (select %s p) (select %s p))) :pattern ((select %s p))))",
 			dst.Base.S, dst.Off.S, dst.Off.S, n.S, nv.S, old.S, nv.S), SBool})
 		f.st.H[cp.Name] = nv
